@@ -56,7 +56,7 @@ Section Through.
       ok prefix (ILet n b) = true -> Inv mi D -> Inv (snd (flatten_item prefix (ILet n b) mi)) D.
   Hypothesis step_loaded : forall m mi D, Inv mi D -> Inv (loaded_insert m mi) D.
   Hypothesis step_use : forall prefix pub p t mi D,
-      Inv mi D -> Inv (snd (flatten_item prefix (IUse pub p t) mi)) D.
+      ok prefix (IUse pub p t) = true -> Inv mi D -> Inv (snd (flatten_item prefix (IUse pub p t) mi)) D.
 
   Lemma through_item : forall it prefix mi D,
       ok prefix it = true -> Inv mi D -> Inv (snd (flatten_item prefix it mi)) (D ++ fn_decls_item prefix it).
@@ -185,7 +185,7 @@ Proof.
     intros prefix n b mi D _ HI. cbn [flatten_item snd]. eapply vis_inv_same; [| |exact HI]; destruct (nonempty prefix); reflexivity.
   - intros m mi D HI. eapply vis_inv_same; [| |exact HI]; reflexivity.
   - (* use *)
-    intros prefix pub p t mi D HI. cbn [flatten_item snd]. apply process_use_vis.
+    intros prefix pub p t mi D _ HI. cbn [flatten_item snd]. apply process_use_vis.
     destruct (use_external_load_fields p prefix mi) as [Hv [Ha _]]. eapply vis_inv_same; eauto.
   - apply forallb_forall. reflexivity.
   - split; intros; cbn in *; try discriminate; contradiction.
@@ -204,7 +204,7 @@ Proof. intros A l x. destruct l; reflexivity. Qed.
 Lemma flatten_ctx : forall prog, no_mod_let prog = true -> ctx_inv (snd (flatten prog)).
 Proof.
   intros prog Hno. unfold flatten.
-  apply (through_items (fun mi _ => ctx_inv mi) nolet_ok) with (D := []).
+  refine (through_items (fun mi _ => ctx_inv mi) nolet_ok _ _ _ _ _ prog [] mi_empty [] _ _).
   - intros prefix pub n body H. unfold nolet_ok in *.
     assert (Hb : forallb no_let_item body = true) by (destruct (nonempty prefix); exact H).
     apply forallb_forall. intros x Hx. rewrite nonempty_snoc. rewrite forallb_forall in Hb. apply Hb. exact Hx.
@@ -218,7 +218,7 @@ Proof.
     + cbn [no_let_item] in Hok. discriminate.
     + exact HI.
   - intros m mi D HI. exact HI.
-  - intros prefix pub p t mi D HI. cbn [flatten_item snd]. unfold ctx_inv. rewrite process_use_ctx.
+  - intros prefix pub p t mi D _ HI. cbn [flatten_item snd]. unfold ctx_inv. rewrite process_use_ctx.
     destruct (use_external_load_fields p prefix mi) as [_ [_ Hc]]. rewrite Hc. exact HI.
   - unfold nolet_ok. cbn [nonempty]. exact Hno.
   - intros k c Hk. cbn in Hk. discriminate.
@@ -258,7 +258,7 @@ Qed.
 Lemma private_fn_member : forall prog M n, private_fn prog M n -> is_private_member prog (M ++ [n]) = true.
 Proof.
   intros prog M n [HM [d [Hd [H1 [H2 H3]]]]]. apply is_private_member_spec. exists d. split; auto.
-  unfold d_path. rewrite H1, H2. repeat split; auto. rewrite H1. exact HM.
+  unfold d_path. rewrite H1, H2. repeat split; auto.
 Qed.
 
 Lemma has_key_assoc : forall A k (m : list (sym * A)), has_key k m = true <-> assoc k m <> None.
